@@ -23,7 +23,7 @@ DECIDING = ["range.element", "range.end", "contains", "range.bound"]
 FLOORS = {"quick": {"range.element": 300000, "range.end": 5000, "contains": 20000, "range.bound": 5000},
           "thorough": {"range.element": 3 * 10**6, "range.end": 50000, "contains": 200000, "range.bound": 50000}}
 REQUIRED_HOOKS = ["Interval.range", "Interval.__contains__"]
-TECHNIQUE = "online checking generator wrapped around Interval.range (sequence oracle element by element), contracts on __contains__/__iter__"
+TECHNIQUE = "online checking generator wrapped around Interval.range (sequence oracle element by element), contracts on __contains__/__iter__; elements judged against an independent calendar model; containment probes written in other zones"
 LEVEL_TEXT = ("every element yielded by Interval.range during the workloads is compared online with the start shifted by k*n units, "
               "checked for strict monotonicity and containment, and exhaustion is checked against end-reachability; intervals are "
               "forward/inverted/absolute over DateTime (ranges crossing gaps and overlaps) and Date; held on what was observed")
